@@ -811,6 +811,8 @@ def history_step(o, arg, expr_r, signed, target, reduce, envs):
     """one call; returns (outcome text, failure text or None)"""
     from symplyphysics.core.experimental.solvers import solve_for_vector  # pylint: disable=import-outside-toplevel
     cands = contributions(signed, target)
+    if cands and sympy.expand(sum((vx.comps_of_recipe(k) for k in cands), sympy.S.Zero)) == 0:
+        cands = []                  # the terms of the vector cancel: it is not a term of the expression
     try:
         eq = solve_for_vector(arg, o.vecs[target], reduce_factor=reduce)
     except Exception as e:  # pylint: disable=broad-except
